@@ -42,7 +42,14 @@ RULE = (
     "with <=3 fields, scripted ==-classes / hash codes / key function on {0,1,2}, 1-2 instances and histories of <=9 "
     "operations (hash / copy / deepcopy / pickle protocols 2-5 / evolve / field write), 30% of them scripted as hash, derive, "
     "write to the derived instance, hash both; non-trivial = a hash operation on a class with an attrs-generated hash, or a "
-    "table row that is not the default row (attr.s, nothing passed, no base); distinct = distinct JSON case. Reused "
+    "table row that is not the default row (attr.s, nothing passed, no base); distinct = distinct JSON case. Init hooks and "
+    "hostile key objects (harness-only, the model is independent of them on the unchanged tree): on 20-35% of the chains "
+    "of the instance streams the first attrs class defines an __attrs_post_init__ that hashes self best-effort (with "
+    "cache_hash this raises on the unchanged tree and is swallowed) and then normalises every field -- the constructor is "
+    "then called with not-yet-normalised values that hash and compare unlike the clean ones, so the finished instance "
+    "holds the model's values -- and on a third of those an __attrs_pre_init__ that hashes self; 15-30% of the fields "
+    "compared without a key are given a falsy callable object (len 0) as eq=, which the unchanged tree drops for __eq__ and "
+    "__hash__ alike: equality and hash consistency is judged on the observed x == y and hash(x) == hash(y). Reused "
     "decorator objects (harness-only history, the model is independent of it): the object returned by attr.s(...) / "
     "define(...) / frozen(...) is first applied to a priming class (own __eq__ / __ne__ / __hash__ def or None / "
     "__init__, base object / frozen attrs / Exception / plain class with __hash__, with or without a field) and then to "
@@ -114,26 +121,96 @@ COUNT = {"key": 0, "val": 0}
 
 
 class V:
-    __slots__ = ("n",)
+    """scripted value; `d` marks a not-yet-normalised constructor argument (see `_post_hook`): it equals and hashes
+    like nothing clean, so a hash taken before normalisation differs from the hash of the finished instance"""
+    __slots__ = ("n", "d")
 
-    def __init__(self, n):
+    def __init__(self, n, d=False):
         self.n = n
+        self.d = d
 
     def __eq__(self, other):
-        return isinstance(other, V) and EQC[self.n] == EQC[other.n]
+        return isinstance(other, V) and self.d == other.d and EQC[self.n] == EQC[other.n]
 
     def __ne__(self, other):
         return not self.__eq__(other)
 
     def __hash__(self):
         COUNT["val"] += 1
-        return HC[HCODE[EQC[self.n]]]
+        return HC[HCODE[EQC[self.n]]] + (77777 if self.d else 0)
 
     def __repr__(self):
-        return f"V({self.n})"
+        return f"V({self.n}{', dirty' if self.d else ''})"
 
     def __reduce__(self):
-        return (V, (self.n,))
+        return (V, (self.n, self.d))
+
+
+def _pre_hook(self):
+    """__attrs_pre_init__ of a class with `pre`: uses the instance as a dict key, best effort"""
+    try:
+        hash(self)
+    except Exception:  # noqa: BLE001
+        pass
+
+
+def _post_hook(self):
+    """__attrs_post_init__ of a class with `post`: first uses the instance as a dict key (best effort: with cache_hash
+    this raises on the unchanged tree, the cache does not exist yet), then normalises every field -- plain assignment,
+    object.__setattr__ on frozen classes.  The finished instance holds exactly the clean values the model knows."""
+    try:
+        hash(self)
+    except Exception:  # noqa: BLE001
+        pass
+    try:
+        fs = attr.fields(type(self))
+    except Exception:  # noqa: BLE001
+        return
+    for a in fs:
+        try:
+            v = getattr(self, a.name)
+        except AttributeError:
+            continue
+        if isinstance(v, V) and v.d:
+            try:
+                setattr(self, a.name, V(v.n))
+            except Exception:  # noqa: BLE001
+                object.__setattr__(self, a.name, V(v.n))
+
+
+class FalsyKey:
+    """a key function that is a falsy callable object (`len() == 0`)"""
+
+    def __init__(self, key):
+        self.key = key
+
+    def __call__(self, v):
+        return self.key(v)
+
+    def __len__(self):
+        return 0
+
+
+def _mk(C, vals, dirty):
+    x = C(*[V(v, dirty) for v in vals])
+    if dirty:
+        _post_hook_clean_only(x)
+    return x
+
+
+def _post_hook_clean_only(x):
+    """safety net: should a post-init not have run for this instance, normalise here (without hashing)"""
+    try:
+        fs = attr.fields(type(x))
+    except Exception:  # noqa: BLE001
+        return
+    for a in fs:
+        try:
+            v = getattr(x, a.name)
+        except AttributeError:
+            continue
+        if isinstance(v, V) and v.d:
+            object.__setattr__(x, a.name, V(v.n))
 
 
 ACTIVE_TAGS: set = set()
@@ -196,6 +273,9 @@ def _class_src(k, c, root, bases=None, name=None):
             args.append("eq=False")
         elif f["eq"] == "key":
             args.append("eq=KEY")
+        elif f.get("fkey"):
+            # harness-only: a falsy callable object as key; the unchanged tree drops it for eq and hash alike
+            args.append("eq=FKEY")
         if f["hash"] is not None:
             args.append(f"hash={f['hash']}")
         lines.append(f"    {f.get('py', f['name'])} = attr.ib({', '.join(args)})")
@@ -212,6 +292,10 @@ def _class_src(k, c, root, bases=None, name=None):
         lines += ["    def __ne__(self, other):", "        return self is not other"]
     if c["ownInit"]:
         lines += ["    def __init__(self, *args, **kwargs):", "        pass"]
+    if c.get("pre"):
+        lines += ["    def __attrs_pre_init__(self):", "        PRE_HOOK(self)"]
+    if c.get("post"):
+        lines += ["    def __attrs_post_init__(self):", "        POST_HOOK(self)"]
     if len(lines) == 1:
         lines.append("    pass")
     return "\n".join(lines)
@@ -306,12 +390,14 @@ def _build_chain(root, chain, register, side=(), side_first=False):
         common.purge_linecache()
     key = make_key()
     _LAST_KEY[0] = key
-    ns = {"__name__": _MOD, "attr": attr, "attrs": attrs, "KEY": key}
+    ns = {"__name__": _MOD, "attr": attr, "attrs": attrs, "KEY": key, "FKEY": FalsyKey(key), "PRE_HOOK": _pre_hook,
+          "POST_HOOK": _post_hook}
     mod = None
     if register:
         mod = types.ModuleType(_MOD)
         ns = mod.__dict__
-        ns.update({"attr": attr, "attrs": attrs, "KEY": key})
+        ns.update({"attr": attr, "attrs": attrs, "KEY": key, "FKEY": FalsyKey(key), "PRE_HOOK": _pre_hook,
+                   "POST_HOOK": _post_hook})
     kinds, classes = [], []
     saved = sys.modules.get(_MOD)
     if mod is not None:
@@ -439,7 +525,7 @@ def _field_names(C):
     return [a.name for a in fs], [a.alias for a in fs]
 
 
-def _hash_op(C, T, names, x, alt):
+def _hash_op(C, T, names, x, alt, dirty=False):
     COUNT["key"] = COUNT["val"] = 0
     try:
         h = hash(x)
@@ -455,12 +541,12 @@ def _hash_op(C, T, names, x, alt):
     same = False
     if out == "ok" and T is not None:
         try:
-            same = hash(T(*[V(v) for v in vals])) == h
+            same = hash(_mk(T, vals, dirty)) == h
         except BaseException:  # noqa: BLE001
             same = False
     eq_alt = hash_alt = False
     try:
-        y = C(*[V(v) for v in alt])
+        y = _mk(C, alt, dirty)
     except BaseException:  # noqa: BLE001
         y = None
     if y is not None:
@@ -533,7 +619,8 @@ def observe(case):
         names, aliases = _field_names(C)
         results = []
         try:
-            insts = [C(*[V(v) for v in vals]) for vals in case["insts"]]
+            dirty = any(c.get("post") for c in case["chain"])
+            insts = [_mk(C, vals, dirty) for vals in case["insts"]]
         except BaseException:  # noqa: BLE001
             return {"classes": kinds, "results": [_plain("other") for _ in case["ops"]]}
         keep = []   # keeps every object alive so identity hashes stay distinct
@@ -547,7 +634,7 @@ def observe(case):
                     insts.append(None)
                 continue
             if name == "hash":
-                results.append(_hash_op(C, T, names, x, arg["alt"]))
+                results.append(_hash_op(C, T, names, x, arg["alt"], dirty))
             elif name in ("copy", "deepcopy", "pickle", "evolve", "assoc"):
                 try:
                     if name == "copy":
@@ -927,6 +1014,26 @@ def _inst_cases(rng, chain, count=1, max_ops=8, pairs=None, root=None, script=Fa
         yield case
 
 
+def _dress_hooks(rng, chain, p_post=0.25, p_fkey=0.15):
+    """harness-only: init hooks on the first attrs class of the chain (inherited by the others) -- a post-init that
+    hashes self, best effort, and then normalises the fields; a pre-init that hashes self -- and falsy key objects on
+    fields compared without a key"""
+    first = next((c for c in chain if c["api"] != "plain"), None)
+    for c in chain:
+        c.pop("post", None)
+        c.pop("pre", None)
+        for f in c["fields"]:
+            f.pop("fkey", None)
+            if f["eq"] == "t" and rng.random() < p_fkey:
+                f["fkey"] = True
+    if first is not None and not any(c["ownInit"] for c in chain):
+        if rng.random() < p_post:
+            first["post"] = True
+        if rng.random() < p_post / 3:
+            first["pre"] = True
+    return chain
+
+
 def _dress_names(rng, chain, p=0.35):
     """harness-only: write some fields under a private / dunder-like name or with an explicit alias, and swap
     the aliases of two fields of one class -- the attribute name and the __init__ parameter name then differ"""
@@ -970,7 +1077,7 @@ def _rand_chain(rng):
         for f in c["fields"]:
             f["name"] = FIELD_NAMES[order]
             order += 1
-    return _dress_names(rng, chain)
+    return _dress_hooks(rng, _dress_names(rng, chain))
 
 
 def _templates():
@@ -1149,7 +1256,7 @@ def gen_cases(tier, rng):
             if gs == "t":
                 # the generated __getstate__/__setstate__ also on dict classes
                 ch = [dict(k, getstateSetstate="t") if k["api"] != "plain" else k for k in ch]
-            yield from _inst_cases(rng, _dress_names(rng, ch, p=0.25), count=2 if quick else 20, script=want_script())
+            yield from _inst_cases(rng, _dress_hooks(rng, _dress_names(rng, ch, p=0.25), 0.35, 0.2), count=2 if quick else 20, script=want_script())
     # ---- instance pairs
     if quick:
         blocks = list(_pair_block(rng, 1))
@@ -1158,13 +1265,13 @@ def gen_cases(tier, rng):
     else:
         blocks = _pair_block(rng, 2)
     for chain, pairs in blocks:
-        yield from _inst_cases(rng, _dress_names(rng, chain), pairs=pairs, script=want_script())
+        yield from _inst_cases(rng, _dress_hooks(rng, _dress_names(rng, chain), 0.2, 0.3), pairs=pairs, script=want_script())
     # ---- change sets of assoc / evolve after a hash
     for chain, x, ops in itertools.chain.from_iterable(_change_block(rng, 2) for _ in range(2 if quick else 8)):
         if _k3_shape(chain):
             continue
         eqc, hcode, key_map = _rand_domain(rng)
-        case = mk_case(_dress_names(rng, chain, p=0.2), eqc=eqc, hcode=hcode, key_map=key_map, insts=[x], ops=ops)
+        case = mk_case(_dress_hooks(rng, _dress_names(rng, chain, p=0.2), 0.3, 0.15), eqc=eqc, hcode=hcode, key_map=key_map, insts=[x], ops=ops)
         if build(case)[1] is not None:
             yield case
             if want_script() and _script_ok(case["chain"], None):
@@ -1216,6 +1323,8 @@ def dist(case, obs):
         "n_ops": len(case["ops"]),
         "exc_base": case["excBase"],
         "primed": any(bool(c.get("prime")) for c in case["chain"]),
+        "hooks": "+".join(h for h in ("pre", "post") if any(c.get(h) for c in case["chain"])) or "-",
+        "falsy_keys": sum(1 for c in case["chain"] for f in c["fields"] if f.get("fkey")),
     }
     if case["ops"]:
         d["ops"] = "+".join(sorted({next(iter(op)) for op in case["ops"]}))
@@ -1263,6 +1372,14 @@ def shrink(case):
                 c2 = dict(c, **{key: v})
                 if not _is_legacy_or_mixed(c2):
                     yield dict(case, chain=case["chain"][:k] + [c2] + case["chain"][k + 1:])
+    for k, c in enumerate(case["chain"]):
+        for hk in ("post", "pre"):
+            if c.get(hk):
+                c2 = {kk: v for kk, v in c.items() if kk != hk}
+                yield dict(case, chain=case["chain"][:k] + [c2] + case["chain"][k + 1:])
+        if any(f.get("fkey") for f in c["fields"]):
+            c2 = dict(c, fields=[{kk: v for kk, v in f.items() if kk != "fkey"} for f in c["fields"]])
+            yield dict(case, chain=case["chain"][:k] + [c2] + case["chain"][k + 1:])
     for k, c in enumerate(case["chain"]):
         if any("py" in f or "alias" in f for f in c["fields"]):
             c2 = dict(c, fields=[{kk: v for kk, v in f.items() if kk not in ("py", "alias")} for f in c["fields"]])
